@@ -1,3 +1,26 @@
-From Ebml Require Import Base Tools Spec Reader.
-Example C08_ex : ebml_size 127 1 = SUnknown /\ ebml_size 127 2 = SKnown 127.
-Proof. vm_compute. split; reflexivity. Qed.
+(* C08 — buffered (Full) masters are exactly the flat stream rolled up.  Statements only.
+   PARTIAL: the algebraic core is proved (rolling up a well-nested item sequence and unrolling it again is the identity, for
+   every nesting including masters inside masters of the same id — the D17 defect); that the buffered run of the iterator
+   collects exactly the items the unbuffered run emits between a master's Start and End (a simulation between two runs of
+   different granularity) is covered by the correspondence groups over buffered sets, not proved. *)
+From Ebml Require Import Base Tools Spec Reader Pure Proofs.Tactics Proofs.RollUp.
+
+(* the Full item a buffered master becomes unrolls to its Start, the flattening of the items queued for it, and its End *)
+Theorem C08_unroll_rollup_partial : forall tid children, Bal children ->
+  flat [roll_up_children tid children] = TStart tid :: flat children ++ [TEnd tid].
+Proof. exact rolled_master_unrolls. Qed.
+
+(* when nothing inside was buffered itself, the original Start/End sequence is recovered exactly *)
+Theorem C08_recovers_flat_partial : forall tid children, Bal children -> no_full children ->
+  flat [roll_up_children tid children] = TStart tid :: children ++ [TEnd tid].
+Proof. exact rolled_master_recovers. Qed.
+
+(* grouping never lets an inner End close an outer child: a balanced body is skipped whatever ids it contains *)
+Theorem C08_same_id_nesting : forall cid body l, Bal body -> split_child cid O (body ++ TEnd cid :: l) = (body, l).
+Proof. exact split_child_group. Qed.
+
+Example C08_ex :
+  (* Rec{ Rec{Void 1} Void 2 } Child : same-id nesting groups correctly *)
+  roll_up_children 16643 [TStart 17153; TStart 17153; TElem 236 (VB [1]); TEnd 17153; TElem 236 (VB [2]); TEnd 17153; TElem 16642 (VB [])] =
+  TFull 16643 [TFull 17153 [TFull 17153 [TElem 236 (VB [1])]; TElem 236 (VB [2])]; TElem 16642 (VB [])].
+Proof. vm_compute. reflexivity. Qed.
